@@ -9,6 +9,7 @@ import (
 
 	"verifharness/core"
 	"verifharness/gen"
+	"verifharness/model"
 	"verifharness/simconn"
 	"verifharness/wire"
 	"verifharness/world"
@@ -257,6 +258,58 @@ func (g *Gated) ExecG(a core.Action) bool {
 		}
 		g.afterConn(r, "MessageMailboxesUpdated")
 		return true
+	case "conn.flap":
+		// the remote takes a message out of a mailbox and puts it back, once or twice, with
+		// nothing in between (optionally a message it has only just created there): the
+		// sessions looking at that mailbox find add / remove / add of one message queued
+		box := g.box(a.Arg(1))
+		rid, ok := g.BoxRemote[box]
+		other, ok2 := g.BoxRemote[g.box(a.Arg(1)+1)]
+		if !ok || !ok2 || rid == other {
+			return false
+		}
+		u := e.W.Users[0]
+		var id imap.MessageID
+		flags := imap.NewFlagSet()
+		if a.Arg(3)%2 == 1 || len(g.RemoteMsgs) == 0 {
+			msg := e.NewMessage(a.Arg(0), gen.Opts{})
+			id = u.Conn.NewMessageID()
+			u.Conn.RememberLiteral(id, msg.Bytes, flags, world.SimStart)
+			parsed, err := imap.NewParsedMessage(msg.Bytes)
+			if err != nil {
+				e.Infra = fmt.Errorf("generator message does not parse: %w", err)
+				return true
+			}
+			r := e.W.Submit(u, imap.NewMessagesCreated(false, &imap.MessageCreated{Message: imap.Message{ID: id, Flags: flags, Date: world.SimStart}, Literal: msg.Bytes, MailboxIDs: []imap.MailboxID{rid}, ParsedMessage: parsed}))
+			g.afterConn(r, "MessagesCreated")
+			if !r.Done || r.Err != nil || e.Failed() {
+				return true
+			}
+			g.RemoteMsgs = append(g.RemoteMsgs, id)
+			g.noteIn(rid, id)
+		} else {
+			id = g.RemoteMsgs[abs(a.Arg(0))%len(g.RemoteMsgs)]
+		}
+		for k := 0; k < 1+abs(a.Arg(2))%2 && !e.Failed(); k++ {
+			for _, dst := range []imap.MailboxID{other, rid} {
+				r := e.W.Submit(u, imap.NewMessageMailboxesUpdated(id, []imap.MailboxID{dst}, flags))
+				e.Tr.Event("conn.flap", id, dst, r.Done, r.Err != nil)
+				if r.Done && r.Err == nil {
+					for _, b := range g.BoxRemote {
+						if b == dst {
+							if g.nowIn == nil || g.nowIn[b] == nil || !g.nowIn[b][id] {
+								g.noteIn(b, id)
+							}
+						} else {
+							g.noteOut(b, id)
+						}
+					}
+				}
+				g.afterConn(r, "MessageMailboxesUpdated")
+			}
+		}
+		e.St.Probes["conn_flap"]++
+		return true
 	case "conn.del":
 		if len(g.RemoteMsgs) == 0 {
 			return false
@@ -452,5 +505,80 @@ func (g *Gated) EndAllIdle() {
 		if s.InIdle && !s.C.Dead {
 			g.endIdle(i)
 		}
+	}
+}
+
+// Diagnose adds, to a violation of the view oracles, what the sessions' views look like
+// once everything is delivered and read afresh: attribute
+// "views_equal_mailboxes_after_resync" when every selected session, asked with
+// UID FETCH 1:* (FLAGS) after all updates and a NOOP, answers exactly what a new session
+// sees (the server-side views are right, what went wrong are the announcements), and
+// "view_differs_from_mailbox_after_resync" otherwise (a view has lost, kept or mis-flagged
+// a message for good).  The known-finding matcher uses it to keep a recorded
+// announcement defect from hiding a diverged view.
+func (g *Gated) Diagnose() {
+	e := g.E
+	if e.V == nil || e.Infra != nil {
+		return
+	}
+	switch e.V.Oracle {
+	case "stream", "view", "convergence", "removal-announced", "readd-order":
+	default:
+		return
+	}
+	e.W.ReleaseAll()
+	g.EndAllIdle()
+	same, checked := true, 0
+	auth := map[string][]model.Row{}
+	for i, s := range g.Sess {
+		if s.C.Dead || g.Sel[i] < 0 {
+			continue
+		}
+		e.W.Sim.SetLabel(s.Label)
+		if r := s.C.Do(wire.Simple("NOOP")); !r.OK() {
+			same = false
+			break
+		}
+		r := s.C.Do(wire.Simple("UID FETCH 1:* (FLAGS)"))
+		if !r.OK() {
+			same = false
+			break
+		}
+		bySeq := map[int]model.Row{}
+		maxSeq := 0
+		for _, l := range r.Lines {
+			if _, kw, ok := l.Num(); ok && kw == "FETCH" {
+				if fd, err := wire.ParseFetch(l); err == nil && fd.HasUID {
+					bySeq[int(fd.Seq)] = model.Row{UID: fd.UID, Flags: fd.Flags}
+					maxSeq = max(maxSeq, int(fd.Seq))
+				}
+			}
+		}
+		// the lines of a parallel FETCH come in any order: the view is ordered by sequence number
+		view := make([]model.Row, 0, maxSeq)
+		for q := 1; q <= maxSeq; q++ {
+			view = append(view, bySeq[q])
+		}
+		name := g.Boxes[g.Sel[i]]
+		rows, ok := auth[name]
+		if !ok {
+			var err error
+			rows, _, _, err = e.AuthRead(0, name, false)
+			if err != nil {
+				same = false
+				break
+			}
+			auth[name] = rows
+		}
+		checked++
+		if diffView(s.Label, name, view, rows) != "" {
+			same = false
+			e.Tr.Event("diagnose", s.Label, name, "view differs", len(view), len(rows))
+		}
+	}
+	if same && checked > 0 {
+		e.Attr("views_equal_mailboxes_after_resync")
+	} else {
+		e.Attr("view_differs_from_mailbox_after_resync")
 	}
 }
